@@ -105,6 +105,7 @@ def generate(ctx):
 
 
 def check_element(ctx, case):
+    from periodictable import density as D, mass as M
     m = _state['model']
     NA = _state['NA']
     tname, Z = case['table'], case['Z']
@@ -151,6 +152,9 @@ def check_element(ctx, case):
                 ctx.violation('number_density of %s is %r, rho*N_A/m = %r' % (el, n, rho * NA / em))
             if not ctx.close(n * d ** 3, 1e24, rel=1e-12, name='n_d3.relerr'):
                 ctx.violation('n*d^3 of %s is %r, not 1e24' % (el, n * d ** 3))
+    ctx.evaluated(3, 'module-functions')
+    if D.density(el) != rho or D.number_density(el) != n or D.interatomic_distance(el) != d or M.mass(el) != em:
+        ctx.violation('module functions density/number_density/interatomic_distance/mass(%s) differ from the attributes' % el)
     # isotopes
     ab = m.abundance.get(Z)
     total = 0.0
@@ -197,6 +201,26 @@ def check_element(ctx, case):
                 ni, di = iso.number_density, iso.interatomic_distance
                 if ni is None or di is None or not ctx.close(ni * di ** 3, 1e24, rel=1e-12):
                     ctx.violation('n*d^3 of %s[%d] is not 1e24 (n=%r d=%r)' % (sym, A, ni, di), A=A)
+                # the documented module functions called directly with the isotope
+                ctx.evaluated(3, 'module-functions')
+                nf, df, rf = D.number_density(iso), D.interatomic_distance(iso), D.density(iso)
+                if nf is None or df is None or not ctx.close(nf * df ** 3, 1e24, rel=1e-12):
+                    ctx.violation('density.number_density/interatomic_distance(%s[%d]): n*d^3 is not 1e24 (n=%r d=%r)'
+                                  % (sym, A, nf, df), A=A, field='module.number_density')
+                elif not ctx.close(nf, (rho * im / em) * NA / im, rel=1e-12):
+                    ctx.violation('density.number_density(%s[%d]) is %r, rho*N_A/m = %r'
+                                  % (sym, A, nf, (rho * im / em) * NA / im), A=A, field='module.number_density')
+                if not ctx.close(rf, rho * im / em, rel=1e-14):
+                    ctx.violation('density.density(%s[%d]) is %r, expected %r' % (sym, A, rf, rho * im / em), A=A)
+            else:
+                ctx.evaluated(2, 'module-functions')
+                if D.number_density(iso) is not None or D.interatomic_distance(iso) is not None:
+                    ctx.violation('density.number_density/interatomic_distance(%s[%d]) not None although the '
+                                  'element density is unknown' % (sym, A), A=A)
+            ctx.evaluated(2, 'module-functions')
+            if M.mass(iso) != im or not ctx.close(M.abundance(iso), want, rel=1e-12):
+                ctx.violation('mass.mass/abundance(%s[%d]) = %r, %r; table %r, %r'
+                              % (sym, A, M.mass(iso), M.abundance(iso), im, want), A=A)
     if m.isotopes.get(Z):
         ctx.distinct_case((tname, Z, 'isotopes'))
     if ab:
